@@ -972,13 +972,40 @@ impl Visitor<Diagnostic> for LibraryRenderer {
 
     // 2.6.3
     fn visit_transition(&mut self, node: &dsl::sfc::Transition) -> Result<Self::Value, Diagnostic> {
-        self.write_ws("TRANSITION FROM");
+        self.write_ws("TRANSITION");
 
+        if let Some(name) = &node.name {
+            self.visit_id(name)?;
+        }
+
+        if let Some(priority) = &node.priority {
+            self.write_ws("(");
+            self.write_ws("PRIORITY");
+            self.write_ws(":=");
+            self.write_ws(priority.to_string().as_str());
+            self.write_ws(")");
+        }
+
+        self.write_ws("FROM");
+
+        // More than one step is written as a parenthesized list
+        if node.from.len() > 1 {
+            self.write_ws("(");
+        }
         visit_comma_separated!(self, node.from.iter(), Id);
+        if node.from.len() > 1 {
+            self.write_ws(")");
+        }
 
         self.write_ws("TO");
 
+        if node.to.len() > 1 {
+            self.write_ws("(");
+        }
         visit_comma_separated!(self, node.to.iter(), Id);
+        if node.to.len() > 1 {
+            self.write_ws(")");
+        }
         self.newline();
 
         self.indent();
